@@ -17,7 +17,7 @@ func init() {
 		level: "exploration",
 		rule: "(1) ALL strings up to a length bound over a 24-symbol alphabet containing every metacharacter (\\|.?*+()[]{}$) plus a 0 A x - , : ^ p s 1: for each, both entry points (nfa.Parse, regex ast.Parse) are run; " +
 			"accepted => the whole text must be a sentence of the documented grammar (decided by a complete CFG recogniser, all parses considered). (2) canonical prints of generated trees (C02's population): must be accepted. " +
-			"(3) the same prints with one descending character range or one {n,m} with n>m injected: must be rejected and the message must name the offending range. (4) both entry points agree. " +
+			"(3) the same prints with one descending character range or one {n,m} with n>m injected: must be rejected and the message must name the offending range; repetition counts with leading zeros (decimal by the grammar num = digit+), ascending (must be accepted) and descending (must be rejected); character ranges between 21 code points of every block (ASCII, Latin-1, BMP, the surrogate block, astral) with each end point in each escape form (literal, \\xHH, \\xHHHH, 6 and 8 digits), ascending and descending. (4) both entry points agree. " +
 			"(5) every single-character insertion/deletion/replacement of ~120 valid patterns: verdict (1) and (4). non-trivial = accepted, or rejected although a proper prefix is a sentence; distinct by text.",
 		assumptions: []string{
 			"the documented grammar is transcribed in ref_patgram.go; 'char' is read permissively as 'any character' so that the soundness direction cannot raise a false alarm",
@@ -167,6 +167,66 @@ func runC09(c *ctx) {
 		m := fmt.Sprintf("{%d,%d}", r[0], r[1])
 		bads = append(bads, bad{"a" + m, m}, bad{"(ab)" + m + "?", m}, bad{"x[a-c]" + m + "y", m}, bad{"." + m, m})
 	}
+	// repetition counts are num = digit+: leading zeros are decimal digits like any other
+	zeros := func(n, z int) string { return strings.Repeat("0", z) + fmt.Sprint(n) }
+	for _, n := range []int{0, 1, 7, 8, 9, 10, 12, 64} {
+		for z := 1; z <= 3; z++ {
+			for _, atom := range []string{"a", "(ab)", "[a-c]"} {
+				if n <= 12 && c.mine() {
+					c09Check(c, "count-leading-zeros", atom+"{"+zeros(n, z)+"}", true)
+					c09Check(c, "count-leading-zeros", atom+"{"+zeros(n, z)+",}", true)
+				}
+				for _, m := range []int{0, 1, 7, 8, 9, 10, 11, 12, 63, 64, 65} {
+					for zm := 0; zm <= 2; zm += 2 {
+						text := atom + "{" + zeros(n, z) + "," + zeros(m, zm) + "}"
+						switch {
+						case n > m:
+							bads = append(bads, bad{text, ""})
+						case m <= 12 && c.mine():
+							c09Check(c, "count-leading-zeros", text, true)
+						}
+						if m > n {
+							bads = append(bads, bad{atom + "{" + zeros(m, zm) + "," + zeros(n, z) + "}", ""})
+						}
+					}
+				}
+			}
+		}
+	}
+	// character ranges whose end points are written in every escape form, across the blocks of the code space
+	spell := func(cp int) []string {
+		var out []string
+		if cp > 0x20 && cp < 0x7F && !strings.ContainsRune("\\|.?*+()[]{}$^-:/", rune(cp)) {
+			out = append(out, string(rune(cp)))
+		}
+		if cp <= 0xFF {
+			out = append(out, fmt.Sprintf("\\x%02X", cp))
+		}
+		if cp <= 0xFFFF {
+			out = append(out, fmt.Sprintf("\\x%04X", cp))
+		}
+		if cp > 0xFF {
+			out = append(out, fmt.Sprintf("\\x%06X", cp), fmt.Sprintf("\\x%08X", cp))
+		}
+		return out
+	}
+	cps := []int{0x30, 0x39, 0x41, 0x7A, 0x7E, 0x7F, 0x80, 0xFF, 0x100, 0x7FF, 0x800, 0xD7FF, 0xD800, 0xD900, 0xDBFF, 0xDC00, 0xDFFF, 0xE000, 0xFFFF, 0x10000, 0x10FFFE, 0x10FFFF}
+	for i, lo := range cps {
+		for _, hi := range cps[i+1:] {
+			if hi-lo > 0x1000 {
+				continue // emerge expands a range symbol by symbol: wide ranges cost minutes
+			}
+			for _, ls := range spell(lo) {
+				for _, hs := range spell(hi) {
+					bads = append(bads, bad{"[" + hs + "-" + ls + "]", ""}, bad{"ab([0-9]|[^" + hs + "-" + ls + "])+", ""})
+					if c.mine() {
+						c09Check(c, "range-forms", "["+ls+"-"+hs+"]", true)
+					}
+				}
+			}
+		}
+	}
+	c.count("meaningless_patterns_that_must_be_rejected", int64(len(bads))/int64(c.of))
 	for _, b := range bads {
 		if !c.mine() {
 			continue
@@ -185,7 +245,7 @@ func runC09(c *ctx) {
 		}{{"nfa.Parse", v.nfaOK, v.nfaErr}, {"regex ast.Parse", v.astOK, v.astErr}} {
 			if e.ok {
 				c.violate(violation{Case: "meaningless", Input: b.text, Observed: e.who + " accepted", Expected: "rejected: " + b.mention + " is meaningless"})
-			} else if !strings.Contains(e.msg, b.mention) {
+			} else if b.mention != "" && !strings.Contains(e.msg, b.mention) {
 				c.violate(violation{Case: "meaningless", Input: b.text, Observed: e.who + " error: " + e.msg, Expected: "an error naming the offending range " + b.mention})
 			}
 		}
